@@ -180,6 +180,53 @@ def _sat_mul(ctx, a, ty, c):
     return Int(z3.If(ovf, z3.BitVecVal(-1, x.bits), z3.Extract(x.bits - 1, 0, wide)), x.bits, x.signed)
 
 
+@summary(r"^<&?(u\d+|usize) as (std::ops::|core::ops::)?(Add|Sub|Mul)(<&?(u\d+|usize)>)?>::(add|sub|mul)$")
+def _ref_arith(ctx, a, ty, c):
+    # arithmetic on references to unsigned integers (`*a + *b` written as `a + b`): overflow panics as in the dev profile
+    x = ctx.force(load(ctx, a[0]) if isinstance(a[0], Ref) else a[0])
+    y = ctx.force(load(ctx, a[1]) if isinstance(a[1], Ref) else a[1])
+    op = c.rsplit("::", 1)[-1]
+    w = x.bits
+    if op == "add":
+        r = x.e + y.e
+        ovf = z3.ULT(r, x.e)
+    elif op == "sub":
+        r = x.e - y.e
+        ovf = z3.ULT(x.e, y.e)
+    else:
+        wide = z3.ZeroExt(w, x.e) * z3.ZeroExt(w, y.e)
+        r = z3.Extract(w - 1, 0, wide)
+        ovf = z3.Extract(2 * w - 1, w, wide) != 0
+    if ctx.branch([z3.Not(ovf), ovf]) == 1:
+        raise PathEnd("panic", "MIR assert: attempt to %s with overflow (operator on references)" % op)
+    return Int(r, w, x.signed)
+
+
+@summary(r"^core::num::<impl (u\d+|usize)>::div_ceil$")
+def _div_ceil(ctx, a, ty, c):
+    x, y = ctx.force(a[0]), ctx.force(a[1])
+    nz = y.e != 0
+    if ctx.branch([nz, z3.Not(nz)]) == 1:
+        raise PathEnd("panic", "MIR assert: attempt to divide by zero (div_ceil)")
+    q = z3.UDiv(x.e, y.e)
+    return Int(z3.If(z3.URem(x.e, y.e) != 0, q + 1, q), x.bits, x.signed)
+
+
+@summary(r"^core::num::<impl (u\d+|usize)>::next_multiple_of$")
+def _next_multiple_of(ctx, a, ty, c):
+    x, y = ctx.force(a[0]), ctx.force(a[1])
+    nz = y.e != 0
+    if ctx.branch([nz, z3.Not(nz)]) == 1:
+        raise PathEnd("panic", "MIR assert: attempt to calculate the remainder with a divisor of zero (next_multiple_of)")
+    r = z3.URem(x.e, y.e)
+    add = z3.If(r == 0, z3.BitVecVal(0, x.bits), y.e - r)
+    res = x.e + add
+    ovf = z3.ULT(res, x.e)
+    if ctx.branch([z3.Not(ovf), ovf]) == 1:
+        raise PathEnd("panic", "MIR assert: attempt to add with overflow (next_multiple_of)")
+    return Int(res, x.bits, x.signed)
+
+
 @summary(r"^core::num::<impl \w+>::wrapping_(add|sub)$")
 def _wrap(ctx, a, ty, c):
     x, y = ctx.force(a[0]), ctx.force(a[1])
